@@ -318,9 +318,9 @@ func checkC17(c *Ctx) {
 	// position of the first newline (and "none") is tried; whether a partial line is pending is open. Each path is the
 	// run of Write on one concrete newline placement; what it logs and leaves buffered is compared with the lines of
 	// (pending ++ chunk).
-	const N = 4
+	N := depth(4, 6)
 	p := writeParam(wr)
-	seqs, trunc, cut := explore(wr, N)
+	seqs, trunc, cut := explore(wr, int64(N))
 	if trunc || len(seqs) == 0 || p == nil {
 		c.Und("R17.1", wr.String(), "paths", wr.Pos(), "path exploration of Write incomplete (%d sequences, truncated=%v)", len(seqs), trunc)
 		return
@@ -549,7 +549,7 @@ func checkC17(c *Ctx) {
 		return l
 	}
 	P := p.Name()
-	c.Check(len(badLine) == 0 && len(placements) >= 1<<N, "R17.1", wr.String(), "line-protocol", wr.Pos(), "bounded concrete exploration: a %d-byte chunk, every placement of newlines in it (%d placements, %d feasible paths incl. pending / no pending partial line; %d longer paths cut): what Write logs is exactly the completed lines of (pending ++ chunk), in order, empty ones included, and what it leaves buffered is exactly the unterminated rest: %v", N, len(placements), feasible, cut, lim(badLine))
+	c.Check(len(badLine) == 0 && len(placements) >= 1<<uint(N), "R17.1", wr.String(), "line-protocol", wr.Pos(), "bounded concrete exploration: a %d-byte chunk, every placement of newlines in it (%d placements, %d feasible paths incl. pending / no pending partial line; %d longer paths cut): what Write logs is exactly the completed lines of (pending ++ chunk), in order, empty ones included, and what it leaves buffered is exactly the unterminated rest: %v", N, len(placements), feasible, cut, lim(badLine))
 	c.Check(len(badRet) == 0, "R17.1", wr.String(), "consumes-all", wr.Pos(), "every path returns (len(%s), nil): %v", P, lim(badRet))
 	c.Check(len(badGate) == 0, "R17.2", wr.String(), "level-gate", wr.Pos(), "Write first asks the logger's core whether the writer's level is enabled (afresh on every call) and, if not, returns (len(%s), nil) without buffering or logging: %v", P, lim(badGate))
 	c.Check(len(badFast) == 0 && len(badLine) == 0, "R17.4", wr.String(), "fast-path-only-when-empty", wr.Pos(), "same exploration: a line is logged straight from the chunk only where the buffer is known to be empty; otherwise it joins the buffer, the buffer is logged and then reset: %v", lim(badFast))
